@@ -21,6 +21,10 @@ func (s *scope) clone() *scope {
 	return &scope{strs: append([]string{}, s.strs...), ints: append([]string{}, s.ints...), used: s.used, isCallee: s.isCallee}
 }
 
+// CapComponent is the hand-written code component of helpers.go: it renders
+// its children into a buffer of its own and writes them inside <q>…</q>.
+var CapComponent = &Component{Name: "Cap", Code: true, Callee: true}
+
 // Gen generates programs.
 type Gen struct {
 	R        *rand.Rand
@@ -384,10 +388,25 @@ func (g *Gen) node(sc *scope, depth int, ctx pctx) *Node {
 			}
 			return g.switchNode(sc, depth)
 		case k < 26:
-			if len(g.callees) == 0 {
-				continue // callees may call callees defined before them (no recursion)
+			if len(g.callees) == 0 && r.Intn(3) != 0 {
+				continue // callees may call callees defined before them (no recursion); the code component is always available
 			}
-			nd := &Node{Kind: KCall, Callee: pick(r, g.callees), ArgS: g.sexpr(sc)}
+			if len(g.callees) == 0 {
+				g.callees = nil
+				nd := &Node{Kind: KCall, Callee: CapComponent, ArgS: g.sexpr(sc)}
+				nd.ArgS.Err, nd.ArgS.Multi = false, false
+				if !deep {
+					nd.HasBlock = true
+					nd.Kids = g.nodes(sc.clone(), depth+1, false, ctxFlow)
+					nd.End = g.endSep(nd.Kids, ctxFlow)
+				}
+				return nd
+			}
+			callee := pick(r, g.callees)
+			if r.Intn(5) == 0 {
+				callee = CapComponent
+			}
+			nd := &Node{Kind: KCall, Callee: callee, ArgS: g.sexpr(sc)}
 			nd.ArgS.Err = false
 			nd.ArgS.Multi = false
 			if !deep && r.Intn(2) == 0 {
